@@ -53,14 +53,14 @@ const headType = "verif_c13_head"
 
 // outcome bits per fed event
 const (
-	ocOutput  = 1 << iota // reached the output with a valid encoding
-	ocDropped             // finalized without reaching the output (discard / collapse)
-	ocHeld                // held by the action (ActionHold)
-	ocChanged             // its encoding at the output differs from the untouched event
-	ocInvalid             // reached the output with an invalid encoding
-	ocHead                // the head probe saw it (the tested action's Do was entered)
-	ocRejected            // the pipeline's decoder refused the bytes (not an event)
-	ocChildren            // children spawned while it was processed reached the output
+	ocOutput   = 1 << iota // reached the output with a valid encoding
+	ocDropped              // finalized without reaching the output (discard / collapse)
+	ocHeld                 // held by the action (ActionHold)
+	ocChanged              // its encoding at the output differs from the untouched event
+	ocInvalid              // reached the output with an invalid encoding
+	ocHead                 // the head probe saw it (the tested action's Do was entered)
+	ocRejected             // the pipeline's decoder refused the bytes (not an event)
+	ocChildren             // children spawned while it was processed reached the output
 )
 
 type childSettings struct {
@@ -71,7 +71,8 @@ type childSettings struct {
 	CutOffEventByLimit      bool   `json:"cut_off"`
 	CutOffEventByLimitField string `json:"cut_off_field"`
 	IsStrict                bool   `json:"is_strict"`
-	K8s                     bool   `json:"k8s"` // install pod meta for the k8s multiline action
+	K8s                     bool   `json:"k8s"`                  // install pod meta for the k8s multiline action
+	MetricMaxLabelLen       int    `json:"metric_max_label_len"` // pipeline setting metric.max_label_value_length
 }
 
 type childIn struct {
@@ -90,7 +91,8 @@ type invalidRec struct {
 	Phase string `json:"phase"` // immediate | late
 	Kind  string `json:"kind"`  // regular | child
 	Err   string `json:"err"`
-	Out   []byte `json:"out"` // encoding (truncated)
+	Token string `json:"token"` // class of the offending token (computed on the full encoding)
+	Out   []byte `json:"out"`   // encoding (truncated)
 }
 
 type childOut struct {
@@ -112,8 +114,9 @@ type childOut struct {
 
 // log lines of the child
 type clog struct {
-	T string `json:"t"`           // start | started | do | done
-	I int    `json:"i,omitempty"` // event index for "do"
+	T   string      `json:"t"`           // start | started | do | invalid | done
+	I   int         `json:"i,omitempty"` // event index for "do"
+	Inv *invalidRec `json:"inv,omitempty"`
 }
 
 // ---- head probe ----
@@ -173,9 +176,9 @@ type hInput struct {
 }
 
 func (h *hInput) Start(_ pipeline.AnyConfig, p *pipeline.InputPluginParams) { h.ctl = p.Controller }
-func (h *hInput) Stop()                                                      {}
-func (h *hInput) Commit(*pipeline.Event)                                     {}
-func (h *hInput) PassEvent(*pipeline.Event) bool                             { return true }
+func (h *hInput) Stop()                                                     {}
+func (h *hInput) Commit(*pipeline.Event)                                    {}
+func (h *hInput) PassEvent(*pipeline.Event) bool                            { return true }
 
 // ---- harness output ----
 
@@ -197,7 +200,7 @@ type hOutput struct {
 }
 
 func (o *hOutput) Start(_ pipeline.AnyConfig, p *pipeline.OutputPluginParams) { o.ctl = p.Controller }
-func (o *hOutput) Stop()                                                       {}
+func (o *hOutput) Stop()                                                      {}
 
 func (o *hOutput) Out(e *pipeline.Event) {
 	o.mu.Lock()
@@ -235,10 +238,13 @@ func (o *hOutput) Out(e *pipeline.Event) {
 func (o *hOutput) invalid(idx int, phase, kind string, err error, enc []byte) {
 	mark(idx, ocInvalid)
 	if len(o.res.Invalid) < 40 {
+		token := badToken(enc, err.Error())
 		if len(enc) > 2048 {
 			enc = enc[:2048]
 		}
-		o.res.Invalid = append(o.res.Invalid, invalidRec{Idx: idx, Phase: phase, Kind: kind, Err: err.Error(), Out: append([]byte(nil), enc...)})
+		rec := invalidRec{Idx: idx, Phase: phase, Kind: kind, Err: err.Error(), Token: token, Out: append([]byte(nil), enc...)}
+		o.res.Invalid = append(o.res.Invalid, rec)
+		curIO.Log(clog{T: "invalid", Inv: &rec}) // survives a later death of the process
 	}
 }
 
@@ -291,6 +297,7 @@ var k8sItem = map[string]string{
 
 func installK8sMeta() {
 	k8smeta.DisableMetaUpdates = true
+	k8smeta.EnableGatherer(zap.NewNop().Sugar()) // creates the deleted-pods cache; no API access with updates disabled
 	k8smeta.MetaWaitTimeout = 50 * time.Millisecond
 	k8smeta.SelfNodeName = "node_1"
 	k8smeta.MetaData.NodeLabels = map[string]string{"zone": "z34", "bad\"label": "v\\\"\n"}
@@ -367,7 +374,7 @@ func childMain(raw json.RawMessage, cio *core.ChildIO) (any, error) {
 		Pool:                    pipeline.PoolTypeStd,
 		Metric: &pipeline.MetricSettings{
 			HoldDuration:        pipeline.DefaultMetricHoldDuration,
-			MaxLabelValueLength: pipeline.DefaultMetricMaxLabelValueLength,
+			MaxLabelValueLength: s.MetricMaxLabelLen,
 		},
 	}
 	if s.K8s {
@@ -456,7 +463,7 @@ func childMain(raw json.RawMessage, cio *core.ChildIO) (any, error) {
 	}()
 
 	for _, i := range order {
-		seq := input.ctl.In(pipeline.SourceID(1+i%2), "c13.log", pipeline.NewOffsets(int64(i), nil), in.Events[i], false, meta)
+		seq := input.ctl.In(pipeline.SourceID(1+(i/32)%2), "c13.log", pipeline.NewOffsets(int64(i), nil), in.Events[i], false, meta)
 		if seq == pipeline.EventSeqIDError {
 			mark(i, ocRejected)
 		} else {
